@@ -202,12 +202,20 @@ Definition set_state (s : sdb) (a : addr) (k : key) (v : word) : sdb :=
   let o1 := cache_origin (txs s) a o k in
   if Z.eqb prev v then set_obj s1 a o1
   else set_obj (push s1 (EStorage a k prev)) a (w_dirty o1 k v).
-(** a read: StateDB.GetState *)
+(** a read: StateDB.GetState (then GetCommittedState); caches object and committed slot *)
 Definition read_state (s : sdb) (a : addr) (k : key) : sdb :=
   match lookup s a with
   | None => s
   | Some o => set_obj (cached s a) a (cache_origin (txs s) a o k)
   end.
+(** … and what the two reads return *)
+Definition read_vals (s : sdb) (a : addr) (k : key) : Z * Z :=
+  match lookup s a with
+  | None => (0, 0)
+  | Some o => (st (txs s) a o k, comm (txs s) a o k)
+  end.
+(** a read observation is tagged by a negative first component *)
+Definition read_tag (a : addr) (k : key) : Z := - (a * 100 + k).
 
 Definition suicide (s : sdb) (a : addr) : sdb :=
   match lookup s a with
@@ -380,7 +388,7 @@ Inductive prog :=
 | OAccessAddr (a : addr)
 | OAccessSlot (a : addr) (k : key)
 | OTouch (a : addr)                     (* GetBalance(a): caches the object; emits both balance views *)
-| OReadState (a : addr) (k : key)       (* GetState(a,k): caches object and committed slot *)
+| OReadState (a : addr) (k : key)       (* GetState(a,k), GetCommittedState(a,k): caches object and committed slot; emits both values *)
 | PFrame (body : list prog) (reverted : bool)
 | PPrecompile (sends : list (addr * addr * Z)) (fails : bool).
 
@@ -404,6 +412,10 @@ Definition touch (s : sdb) (a : addr) : sdb :=
   let b := match lookup s a with Some o => bal o | None => 0 end in
   let s1 := cached s a in
   with_out s1 ((a, b, bank_bal (cur_store s1) a) :: out s1).
+
+Definition read_obs (s : sdb) (a : addr) (k : key) : sdb :=
+  let s1 := read_state s a k in
+  with_out s1 ((read_tag a k, fst (read_vals s a k), snd (read_vals s a k)) :: out s1).
 
 Definition sub_refund (s : sdb) (g : Z) : sdb :=
   if refund (aux s) <? g then s else set_refund s (refund (aux s) - g).
@@ -434,7 +446,7 @@ Fixpoint run (p : prog) (s : sdb) {struct p} : sdb :=
   | OAccessAddr a => access_addr s a
   | OAccessSlot a k => access_slot s a k
   | OTouch a => touch s a
-  | OReadState a k => read_state s a k
+  | OReadState a k => read_obs s a k
   | PFrame body rv =>
       let n := length (journal s) in
       let s' := (fix go (l : list prog) (s : sdb) : sdb :=
